@@ -320,6 +320,20 @@ def sc_raw(rng, tier, out):
             out.append((hdr(alloc, et, "01"), cmds))
 
 
+def sc_vmove(rng, tier, out):
+    """container move assignment between the vector members of two joint objects (with and without room in the target):
+    every piece of an object stays inside that object's own block"""
+    for i, et in enumerate(ETS if tier != "quick" else ["e4", "e16", "e3", "e8"]):
+        sz = ELEMS[et][0]
+        for room in (0, 2 * sz, 40 * sz + 64):
+            for alloc in (["leaf"] if tier == "quick" else ["leaf", "stack"]):
+                cmds = [joint_cmd(0, room, 0, (F_ABSENT, 0)),                 # target
+                        joint_cmd(0, 40 * sz + 64, 0, (F_ABSENT, 0)),         # source
+                        "vpush 1 5 0", "pieces 1", "vmove 0 1", "pieces 0", "vpush 0 2 0", "pieces 0", "pieces 1",
+                        "use", "drop 1", "use", "pieces 0"]
+                out.append((hdr(alloc, et, rng.choice(["0", "1", "01"])), cmds))
+
+
 def sc_orders(rng, tier, out):
     """orders of create / move-with-allocator / clone / reset / swap / move of joint_ptrs"""
     reps = 14 if tier == "quick" else 160
@@ -430,7 +444,7 @@ def jobs_c17(prop, tier, seed):
 
 
 def jobs_c11(prop, tier, seed):
-    J = _jobs(prop, tier, seed, ["rel", "base", "dbg"], [sc_fit, sc_raw, sc_orders, sc_joint_create],
+    J = _jobs(prop, tier, seed, ["rel", "base", "dbg"], [sc_fit, sc_raw, sc_orders, sc_joint_create, sc_vmove],
               150 if tier == "quick" else 400)
     J.append(Job("base", DRV[0], DRV[1], known_finding_execs(), "known"))
     ex = model_joint_execs(120 if tier == "quick" else 2500, seed)
